@@ -1,0 +1,9 @@
+// SPDX-FileCopyrightText: 2026 The Pion community <https://pion.ly>
+// SPDX-License-Identifier: MIT
+
+//go:build !verif
+
+package verifhook
+
+// Note is a named observation point (no-op without the verif tag).
+func Note(string, any, ...int) {}
